@@ -182,3 +182,86 @@ func blockedWriter(t *testing.T, rep *ev.Report, shard, of int) {
 		}
 	}
 }
+
+// lateReader: a handler that reads its request body only after the client has already ended or reset the stream.
+// Once the server has processed the client's RST_STREAM the stream is closed: nothing but PRIORITY may be sent on it
+// (RFC 9113 section 5.1), whatever the handler does afterwards - reading what was buffered, answering.
+func lateReader(t *testing.T, rep *ev.Report, shard, of int) {
+	job := 0
+	for _, n := range []int{1, 4095, 4096, 16384, 40000} {
+		for _, end := range []string{"rst", "end-stream", "open"} {
+			for _, answer := range []bool{false, true} {
+				job++
+				if job%of != shard {
+					continue
+				}
+				desc := fmt.Sprintf("late reader: POST with %d body bytes buffered unread, then client %s, then the handler reads (and answers=%v)", n, end, answer)
+				var onClosed []string
+				res := bubble.Run(t, func() {
+					readNow := make(chan struct{})
+					handler := http.HandlerFunc(func(w http.ResponseWriter, r *http.Request) {
+						<-readNow
+						buf := make([]byte, 1<<16)
+						for {
+							if _, err := r.Body.Read(buf); err != nil {
+								break
+							}
+						}
+						if answer {
+							w.WriteHeader(200)
+							w.Write([]byte("late"))
+						}
+					})
+					conn := bubble.StartH2(&http2.Server{MaxReadFrameSize: maxFrame}, &http.Server{}, handler)
+					defer conn.Close()
+					conn.Send([]byte(h2wire.Preface))
+					conn.Send(h2wire.Settings())
+					synctest.Wait()
+					conn.Send(h2wire.SettingsAck())
+					conn.Send(hdr(1, reqBlock("n", 1, 1, [2]string{"content-type", "x"}), false, true, nil, -1))
+					synctest.Wait()
+					for left := n; left > 0; {
+						k := min(left, 16384)
+						conn.Send(h2wire.Data(1, make([]byte, k), false, -1))
+						left -= k
+						synctest.Wait()
+					}
+					conn.Frames()
+					switch end {
+					case "rst":
+						conn.Send(h2wire.RST(1, 8))
+					case "end-stream":
+						conn.Send(h2wire.Data(1, nil, true, -1))
+					}
+					synctest.Wait()
+					reaction := conn.Frames()
+					close(readNow)
+					synctest.Wait()
+					after := conn.Frames()
+					if end == "rst" {
+						for _, f := range append(reaction, after...) {
+							if f.Stream == 1 && f.Type != h2wire.TPriority {
+								onClosed = append(onClosed, describe(f))
+							}
+						}
+					}
+				})
+				if res.Panic != nil {
+					rep.HarnessError("%s: panic %v\n%s", desc, res.Panic, res.Stack)
+					continue
+				}
+				if res.Hang != "" {
+					rep.Violate(map[string]any{"kind": "hang", "part": "late-reader"}, map[string]any{"desc": desc}, "%s: %s", desc, res.Hang)
+					continue
+				}
+				rep.Add("late_reader_cases", 1)
+				rep.Add("evaluations", 1)
+				rep.Note("distinct_nontrivial", fmt.Sprintf("late-reader/%d/%s/%v/%d", n, end, answer, len(onClosed)))
+				if len(onClosed) > 0 {
+					rep.Violate(map[string]any{"kind": "frame-on-closed-stream", "part": "late-reader", "end": end}, map[string]any{"desc": desc, "frames": onClosed},
+						"%s: after the client's RST_STREAM(1) had been processed the server sent on stream 1: %v (a closed stream carries nothing but PRIORITY)", desc, onClosed)
+				}
+			}
+		}
+	}
+}
